@@ -209,6 +209,10 @@ def ma2(k: float, s1: float, s2: float) -> float:
     return k * s1 * s2
 
 
+def ma3(k: float, s1: float, s2: float, s3: float) -> float:
+    return k * s1 * s2 * s3
+
+
 def ma1mod(k: float, s: float, m: float) -> float:
     return k * s * m / (1.0 + m)
 
